@@ -76,17 +76,23 @@ def argpos(ctx, file_filter, label: str, floor: int = 1):
         if params is None:
             ctx.ob("ARGPOS.parameters", call, f"{ci.name}._parameters is a constant list", None, "cannot resolve _parameters")
             continue
-        if em.variadic(ci) or any(isinstance(a, ast.Starred) for a in call.args):
+        if em.variadic(ci):
             continue
         n += 1
         problems = []
-        npos = len(call.args)
+        # positional arguments up to the first *args are bound to the leading parameters
+        pos_args = []
+        for a_ in call.args:
+            if isinstance(a_, ast.Starred):
+                break
+            pos_args.append(a_)
+        npos = len(pos_args)
         # (more positional operands than parameters is a legitimate idiom: Expr.__new__ keeps extra
         #  operands, e.g. Assign(frame, key, value, ...) and UFuncElemwise read operands[len(_parameters):])
         for k in call.keywords:
             if k.arg and k.arg not in params:
                 problems.append(f"keyword `{k.arg}` is not a parameter")
-        for i, a in enumerate(call.args):
+        for i, a in enumerate(pos_args):
             nm = arg_param_name(a)
             if nm in params and i < len(params):
                 named += 1
